@@ -71,6 +71,8 @@ SEQ_TRUST = ["hashbrown raw-entry API and dashmap behave as documented (modelled
              "allocation never fails; usize arithmetic in the arenas is Nat (no overflow)",
              "serde_json text layer is exercised, not modelled"]
 
+import probes
+
 PROPS = {
     "C01": {
         "streams": [seq_stream("core", "C01"), seq_stream("views", "C01")],
@@ -140,6 +142,17 @@ PROPS = {
     "C15": {
         "streams": [seq_stream("docs", "C15")],
         "trusted_base": SEQ_TRUST + ["serde visitor semantics of HashMap<String,K> (last value wins) and NonZero range checks, as modelled"],
+        "assumptions": [],
+    },
+    "C19": {
+        "streams": [probes.stream_c19],
+        "trusted_base": ["rustc's auto-trait rules are what LassoModel/Markers.lean says (validated on the whole 4x2x9 probe matrix on every run)",
+                         "leaf table for std / hashbrown / dashmap types in Markers.leaf"],
+        "assumptions": [],
+    },
+    "C20": {
+        "streams": [probes.stream_c20],
+        "trusted_base": ["rustc's borrow checker behaves on the three-statement probes as LassoModel/Borrow.lean says (validated on the whole matrix, error code included, on every run)"],
         "assumptions": [],
     },
     "C11": {
